@@ -38,7 +38,7 @@ pub fn info() -> PropInfo {
         id: "C03",
         run,
         replay,
-        rule: "cases = (input over all 256 byte values, configuration, source kind and chunking, Reader or NsReader). Invariants over the call history: every call returns (catch_unwind), Eof within 2*len+4 calls, after Eof and after any syntax error the next calls return Eof, positions never decrease and never exceed the input length, error position <= position; every payload accessor is exercised on every returned event; after some start events read_to_end* / read_text is called (a read call like any other: same invariants). Enumerated: all byte strings to length 2 (3 in the thorough tier), all markup strings to length 5; generated: markup-biased byte vectors, soups with arbitrary bytes injected, mutated corpus. Non-trivial = the run produced an error or at least two non-text events.",
+        rule: "cases = (input over all 256 byte values, configuration, source kind and chunking, Reader or NsReader). Invariants over the call history: every call returns (catch_unwind), Eof within 2*len+4 calls, after Eof and after any syntax error the next calls return Eof, positions never decrease and never exceed the input length, error position <= position; every payload accessor is exercised on every returned event; after some start events read_to_end* / read_text is called (a read call like any other: same invariants). Enumerated: all byte strings to length 2 (3 in the thorough tier), all markup strings to length 5; generated: markup-biased byte vectors, soups with arbitrary bytes injected, mutated corpus. Non-trivial = the run produced an error or at least two non-text events. Two further enumerations vary SIZE and OFFSET: fourteen construct kinds (text, long name, quoted value with '>', many attributes, blanks inside tags, comment / CDATA / PI bodies with near-terminators, DOCTYPE with nested brackets, blank runs around text, reference runs, declaration, deep nesting) with an inner length 0..=70 placed after a prefix of 0..=130 bytes, and large inputs whose variable part is 255..70 001 bytes long (block-wise scanners, buffer growth, positions beyond 255 / 65 535, default BufReader capacity).",
         assumptions: &["what the reader does after an I/O or a recoverable ill-formedness/namespace error is not asserted", "bounded time is decided by the call-count bound, not by a clock"],
         level: "exploration",
         variants: &["full", "min"],
